@@ -115,6 +115,23 @@ func runC14(c *Ctx) {
 			"the helper count is in "+iv.String()+" (must be within [1,3]): a non-positive value queries nobody, a large one floods the upstreams")
 	}
 	c.check(spawn.bound == collect.bound, "same-count", instrPos(collect.iff), "both loops use the same helper count", "the collecting loop does not wait for exactly as many results as helpers were started")
+	{
+		// the bound is the only thing that limits the number of helpers: inside the spawning loop the `go` runs under no
+		// further condition (otherwise fewer helpers start than the collecting loop waits for)
+		outer := map[string]bool{}
+		for _, g := range guardsOf(spawn.iff.Block()) {
+			outer[guardKey(g)] = true
+		}
+		extra := ""
+		for _, g := range guardsOfInstr(goIn) {
+			if outer[guardKey(g)] || g.If == spawn.iff {
+				continue
+			}
+			extra = guardText(g)
+		}
+		c.check(extra == "", "spawn-unconditional", instrPos(goIn), "every iteration of the spawning loop starts a helper",
+			"inside the spawning loop the helper is started only under "+extra+": fewer helpers run than the collecting loop waits for, so the last real result is not recognised as the last and the call ends with the context's error instead of that result")
+	}
 
 	// ---------------------------------------------------------------- R2
 	c.rule("R2", "each helper sends its own per-iteration copy of the query; nobody touches the shared, defer-released packed query", 3)
@@ -374,6 +391,9 @@ func runC14(c *Ctx) {
 	}
 
 	// ---------------------------------------------------------------- R7
+	c.rule("R9", "the query is packed into a pool buffer of its own (what the helpers copy and the deferred release returns is that buffer)", 1)
+	checkPackBufferExact(c)
+
 	c.rule("R8", "raw replies are not indexed before Unpack unless a length guard covers the index (garbage of any length is an error, not a panic)", 3)
 	checkRawIndexGuarded(c, p.funcsIn(relForward), nil)
 
